@@ -37,13 +37,17 @@ O  text     (1) every line has the same width; (2) the rule lines give the colum
    CSV      first record = the column names; then one record per (expanded) line of every row, each with one
             field per column; each field, stripped, equals the stripped text cell of the rendering with the same
             expand / nullvalue (for set and inventory cells: the same tokens, separators being listsep in text
-            and ',' in CSV).
+            and ',' in CSV).  The CSV obtained through beanquery.render.csv.render with ALL seven options (the shell
+            hands every setting to every renderer) is identical to the one obtained with expand / nullvalue alone:
+            boxed, spaced, narrow, unicode and listsep do not change it (one record per (expanded) row, items joined
+            by commas); quick tier: on all 128 combinations for tables of <= 2 rows, on the 16-run array for 3 rows.
 S  weakest readings: see ``ASSUMPTIONS``.
 """
 import io
 import itertools
 import json
 
+import beanquery.render.csv
 import beanquery.render.text
 from beanquery import Column
 from beanquery.query_render import render_csv, render_text
@@ -81,7 +85,7 @@ ASSUMPTIONS = [
 
 DTORDER = ['int', 'decimal', 'str', 'date', 'bool', 'set', 'dict', 'object', 'amount', 'position', 'cost', 'inventory']
 LISTLIKE = (set, R.Inventory)
-GENERIC_LOCI = {'header', 'header-centre', 'header-cut', 'frame', 'null', 'spacing', 'csv-header', 'empty'}
+GENERIC_LOCI = {'header', 'header-centre', 'header-cut', 'frame', 'null', 'spacing', 'csv-header', 'csv-options', 'empty'}
 
 
 def _rot(seq, seed):
@@ -347,28 +351,34 @@ def lot_table(dtype, values, expand, stats):
 
 
 def check_csv(names, dtypes, rows, expand, null, stats):
-    """-> (problems, records or None)"""
+    """-> (problems, records or None, raw output or None)"""
+    probs, recs, raw = _check_csv(names, dtypes, rows, expand, null, stats)
+    return probs, (recs if not probs else None), raw
+
+
+def _check_csv(names, dtypes, rows, expand, null, stats):
     cols = [Column(n, t) for n, t in zip(names, dtypes)]
     f = io.StringIO()
     try:
         render_csv(cols, rows, R.display_context(), f, expand=expand, nullvalue=null)
     except Exception as e:    # noqa: BLE001
-        return [(crash_fingerprint(e), None, f'render_csv raised {type(e).__name__}: {e}')], None
-    recs = R.read_csv(f.getvalue())
+        return [(crash_fingerprint(e), None, f'render_csv raised {type(e).__name__}: {e}')], None, None
+    raw = f.getvalue()
+    recs = R.read_csv(raw)
     if not recs or recs[0] != list(names):
-        return [('csv-header', None, f'first CSV record {recs[:1]!r}, expected the column names {list(names)!r}')], None
+        return [('csv-header', None, f'first CSV record {recs[:1]!r}, expected the column names {list(names)!r}')], None, raw
     recs = recs[1:]
     nl = [row_lines(r, dtypes, expand) for r in rows]
     if len(recs) != sum(nl):
         nl0 = [0 if (expand and row_all_empty_inventories(r, dtypes)) else n for r, n in zip(rows, nl)]
         if nl0 != nl and len(recs) == sum(nl0):
             gone = [i for i, (a, b) in enumerate(zip(nl, nl0)) if a != b]
-            return [('csv-row-dropped', None, f'row(s) {gone} (all cells empty inventories) have no CSV record: {len(recs)} records for {len(rows)} rows')], None
-        return [('csv-records', None, f'{len(recs)} CSV records, expected {sum(nl)} (lines per row {nl})')], None
+            return [('csv-row-dropped', None, f'row(s) {gone} (all cells empty inventories) have no CSV record: {len(recs)} records for {len(rows)} rows')], None, raw
+        return [('csv-records', None, f'{len(recs)} CSV records, expected {sum(nl)} (lines per row {nl})')], None, raw
     for i, r in enumerate(recs):
         if len(r) != len(cols):
-            return [('csv-fields', None, f'CSV record {i} has {len(r)} fields for {len(cols)} columns: {r!r}')], None
-    return [], recs
+            return [('csv-fields', None, f'CSV record {i} has {len(r)} fields for {len(cols)} columns: {r!r}')], None, raw
+    return [], recs, raw
 
 
 def compare_csv_text(dtypes, trecs, crecs, stats):
@@ -391,7 +401,7 @@ class TableCheck:
         self.stats = stats
         self.csv = {}
 
-    def run(self, o):
+    def run(self, o, csv_all=True):
         """-> [(kind, locus, column, message)]"""
         st = self.stats
         st['renders'] += 1
@@ -402,9 +412,24 @@ class TableCheck:
             st['csv_renders'] += 1
             self.csv[key] = check_csv(self.names, self.dtypes, self.rows, key[0], key[1], st)
             out += [('csv', loc, j, msg) for loc, j, msg in self.csv[key][0]]
-        crecs = self.csv[key][1]
+        crecs, raw = self.csv[key][1], self.csv[key][2]
         if trecs is not None and crecs is not None:
             out += [('csv', loc, j, msg) for loc, j, msg in compare_csv_text(self.dtypes, trecs, crecs, st)]
+        # The shell hands every setting to every renderer: CSV through the format's entry point with ALL the options
+        # must be what render_csv gives with expand / nullvalue alone (boxed, spaced, narrow, unicode, listsep are text-only).
+        if not csv_all:
+            return out
+        st['csv_renders_all_options'] += 1
+        f = io.StringIO()
+        try:
+            beanquery.render.csv.render([Column(n, t) for n, t in zip(self.names, self.dtypes)], self.rows, f, dcontext=R.display_context(), **o)
+            got = f.getvalue()
+        except Exception as e:    # noqa: BLE001
+            out.append(('csv', crash_fingerprint(e), None, f'render.csv.render with all the options raised {type(e).__name__}: {e}'))
+            got = raw
+        if raw is not None and got != raw:
+            out.append(('csv', 'csv-options', None, f'CSV output depends on text-only options: {len(R.read_csv(got))} records {got!r} with all the options, '
+                                                    f'{len(R.read_csv(raw))} records {raw!r} with expand / nullvalue alone'))
         return out
 
 
@@ -504,6 +529,7 @@ def shard(shard_no, nshards, seed, thorough):
     st = new_stats()
     opts_all = all_options()
     opts_pair = opts_all if thorough else oa16_options()
+    oa16 = [tuple(sorted(o.items())) for o in oa16_options()]
     for idx, (kind, names, dtnames, rows) in enumerate(tables(seed, thorough)):
         if not mine(idx, shard_no, nshards):
             continue
@@ -524,7 +550,9 @@ def shard(shard_no, nshards, seed, thorough):
                 if pr:
                     fp = pr[0] if '@' in pr[0] else f'render:text:{pr[0]}'
                     record(acc, fp, f'{pr[1]} -- {describe(names, dtnames, rows, o)}', make_case(names, dtnames, rows, o))
-            for k, loc, j, msg in tc.run(o):
+            # quick tier: CSV with all the options on every combination for tables of <= 2 rows, on the 16-run array for 3 rows
+            csv_all = thorough or len(rows) <= 2 or tuple(sorted(o.items())) in oa16
+            for k, loc, j, msg in tc.run(o, csv_all):
                 fp = fingerprint(k, loc, j, names, dtnames, rows, o)
                 record(acc, fp, f'{msg} -- {describe(names, dtnames, rows, o)}', make_case(names, dtnames, rows, o))
             if oi == 0:
@@ -565,7 +593,7 @@ def run(ctx):
     full, reduced = alphabets(ctx.seed, ctx.thorough)
     cov = {
         'states': n['configurations'],
-        'transitions': n['renders'] + n['csv_renders'],
+        'transitions': n['renders'] + n['csv_renders'] + n['csv_renders_all_options'],
         'traces_validated_against_impl': n['tables'],
         'evaluations': n['readback'] + n['null'] + n['headers'] + n['csv_fields'],
         'distinct_nontrivial': len(acc.sets['outputs']),
@@ -580,7 +608,7 @@ def run(ctx):
         'tables_with_a_non_null_cell': n['tables_nontrivial'], 'empty_results': n['empty_results'],
         'empty_results_through_render_text_module': n['empty_wrapper_calls'],
         'option_combinations': {'single': 128, 'pair': 128 if ctx.thorough else 16},
-        'text_renders': n['renders'], 'csv_renders': n['csv_renders'],
+        'text_renders': n['renders'], 'csv_renders': n['csv_renders'], 'csv_renders_with_all_options': n['csv_renders_all_options'],
         'cells_read_back': n['readback'], 'null_cells': n['null'], 'headers_checked': n['headers'], 'headers_cut_narrow': n['headers_cut'],
         'tables_rendered_with_expanded_rows': n['expanded_tables'],
         'columns_checked_for_decimal_point_alignment': n['align_columns'], 'cells_exempt_scientific_notation': n['align_exempt'],
